@@ -216,7 +216,19 @@ var opIndex = func() map[string]int {
 
 func genValue(t *rapid.T, label string) *big.Int {
 	var v *big.Int
-	switch gen.Pick(t, 7, label+"k") {
+	switch gen.Pick(t, 8, label+"k") {
+	case 7: // neighbourhood of a perfect square (the natural boundary of Sqrt), root up to 2^66
+		r := new(big.Int).SetUint64(rapid.Uint64().Draw(t, label+"root"))
+		r.Rsh(r, uint(rapid.IntRange(0, 40).Draw(t, label+"rsh")))
+		if gen.Pick(t, 4, label+"wide") == 0 {
+			r.Lsh(r, uint(rapid.IntRange(1, 3).Draw(t, label+"lsh")))
+		}
+		v = new(big.Int).Mul(r, r)
+		v.Add(v, big.NewInt(int64(rapid.IntRange(-2, 2).Draw(t, label+"sd"))))
+		if v.Sign() < 0 {
+			v.SetInt64(0)
+		}
+		return v // non-negative: Sqrt of a negative panics in both implementations
 	case 0:
 		v = big.NewInt(int64(rapid.IntRange(-3, 3).Draw(t, label+"s")))
 	case 1, 2:
